@@ -126,6 +126,11 @@ LastGiven == [][ /\ (last'.op = "add" => pos'[last'.n] = last'.p /\ \A m \in Nod
                  /\ (last'.op = "remove" => \A m \in Nodes : pos'[m] = IF m \in ToSet(last'.nodes) THEN None ELSE pos[m])
                  /\ (last'.op = "concat" => pos' = pos) ]_vars
 
+(* Queries (get_point, compute_force_point, pbc_min_dist on stored points) are operators over the state, not    *)
+(* actions: a query call leaves all four views exactly as they were.  Conformance: the S->I replay and NBTrace   *)
+(* compare the projected engine state once after the operation and once more after the queries (QueryPure).     *)
+QueryPure(before, after) == before = after
+
 (* metric laws of the minimum-image distance on the lattice *)
 Box == {<<x, y, z>> : x \in 0..LX-1, y \in 0..LY-1, z \in 0..LZ-1}
 MetricLaws == \A p, q \in Box :
